@@ -5,7 +5,6 @@ package main
 // recorded and listed in the evidence.
 
 import (
-	"fmt"
 	"go/types"
 	"os"
 	"path/filepath"
@@ -455,24 +454,10 @@ func init() {
 		return nil
 	})
 
-	// ---- crypto/md5 as an uninterpreted function ----
-	reg("crypto/md5.Sum", func(e *Exec, args []Value, fn *ssa.Function) Value {
-		data := e.sliceBytes(args[0].(Slice))
-		// record the argument for harness inspection
-		e.nativeState["md5.last"] = data
-		e.ufCount++
-		res := make(Agg, 16)
-		id := e.md5ID(data)
-		if id < len(e.md5Calls) {
-			return append(Agg(nil), e.md5Calls[id].out...)
-		}
-		for i := range res {
-			v := e.tc.Var(fmt.Sprintf("md5_%d_%d", id, i), BV(8))
-			e.symvars = append(e.symvars, v)
-			res[i] = v
-		}
-		e.md5Calls = append(e.md5Calls, md5Call{arg: data, out: res})
-		return append(Agg(nil), res...)
+	// the assembly block function of MD5: run the package's own pure-Go version
+	reg("crypto/md5.block", func(e *Exec, args []Value, fn *ssa.Function) Value {
+		g := e.prog.ssa.ImportedPackage("crypto/md5").Func("blockGeneric")
+		return e.callSSA(g, args, nil)
 	})
 
 	// ---- math ----
